@@ -582,6 +582,35 @@ fn handle(w: &mut World, cap: &mut Capture, line: &str) -> String {
             let x = f32::from_bits(u32::from_str_radix(words[1], 16).unwrap());
             format!("(disp {})", hexs(&format!("{}", Number::<f32>::Real(x))))
         }
+        "REPL" => {
+            // the built ruschm binary driven over a pipe, in a scratch working directory
+            let bin = std::env::var("RUSCHM_BIN").unwrap_or_else(|_| "/verif/.cache/ruschm-target/debug/ruschm".to_string());
+            let mut input = Vec::new();
+            for hword in &words[1..] {
+                if *hword != "-" { input.extend(hex_decode(hword)); }
+                input.push(b'\n');
+            }
+            let cwd = w.root.join("cwd");
+            let mut child = std::process::Command::new(bin)
+                .current_dir(&cwd)
+                .stdin(std::process::Stdio::piped())
+                .stdout(std::process::Stdio::piped())
+                .stderr(std::process::Stdio::piped())
+                .spawn()
+                .unwrap();
+            child.stdin.take().unwrap().write_all(&input).unwrap();
+            let outp = child.wait_with_output().unwrap();
+            if !outp.status.success() {
+                return format!("(repl-exit {:?})", outp.status.code());
+            }
+            let so = outp.stdout;
+            let banner_end = so.iter().position(|b| *b == b'\n').map(|p| p + 1).unwrap_or(0);
+            let farewell = b"exited. have a nice day.\n";
+            let end = if so.ends_with(farewell) { so.len() - farewell.len() } else { so.len() };
+            let body = if banner_end <= end { &so[banner_end..end] } else { &so[0..0] };
+            let errs = outp.stderr.iter().filter(|b| **b == b'\n').count();
+            format!("(repl out={} errs={})", hex_encode(body), errs)
+        }
         "BRACKET" => show_bool(ruschm::repl::verif_check_bracket_closed(&hex_str(words[1]))),
         other => panic!("bad line {}", other),
     }
